@@ -114,6 +114,7 @@ type Interp struct {
 	unwind    int
 	fnSeen    map[*ssa.Function]bool
 	opaqueSeq int
+	config    map[string]bool
 	pcSet     map[int]bool
 	bind      map[int]*Term
 	bindMemo  map[int]*Term
